@@ -82,8 +82,12 @@ def _one_case(obs, rng, conv, kw, spec, mode, work):
     if mode == 'validity':
         check_subset_of_original(obs, model, ems, epolys, rng)
     geoms = clip_geometries(model, rng, 2)
+    # a selection with gaps (cells that are not selected although all their vertices / edges belong to selected cells)
+    geoms += clip_geometries(model, rng, 1, classes=['around_one_cell', 'scattered_cells'])
     for g, gcls in geoms:
         b = int(rng.integers(0, 3))
+        if gcls in ('around_one_cell', 'scattered_cells') and rng.random() < 0.6:
+            b = 0           # a buffer ring closes the gaps again
         s0 = brute_hits(polys, g)
         if not s0:
             obs.cls('empty-selection-not-asserted')
